@@ -507,12 +507,12 @@ func (db *MultiBucketBackend) PutObject(
 		return result, err
 	}
 
-	db.lock.Lock()
-	defer db.lock.Unlock()
-
-	// Another slighly racy check:
-	exists, err := db.bucketExistsLocked(bucketName)
-	if err != nil {
+	// The body arrives without the lock held: a client that is slow, or stops
+	// in the middle of its upload, must not keep every other request to this
+	// backend waiting. The temporary file is this upload's own. The bucket is
+	// looked at here so that a doomed upload is refused before its body is
+	// read, and again under the lock once the body is there.
+	if exists, err := db.BucketExists(bucketName); err != nil {
 		return result, err
 	} else if !exists {
 		return result, gofakes3.BucketNotFound(bucketName)
@@ -568,6 +568,17 @@ func (db *MultiBucketBackend) PutObject(
 		return result, err
 	}
 	closed = true
+
+	db.lock.Lock()
+	defer db.lock.Unlock()
+
+	// The bucket may have been deleted while the body arrived:
+	exists, err := db.bucketExistsLocked(bucketName)
+	if err != nil {
+		return result, err
+	} else if !exists {
+		return result, gofakes3.BucketNotFound(bucketName)
+	}
 	verifhook.At("fs.put.before-meta")
 
 	if conflict, err := keyConflict(db.bucketFs, bucketName, objectName); err != nil {
